@@ -214,6 +214,17 @@ func (s *Sim) event(kind byte) FaultKind {
 	if s.connLost {
 		return FaultConnLoss
 	}
+	if s.faultKind == FaultStall {
+		// a stall is applied at the first transaction begin at or after event k: stalling
+		// between a handler's "now" and its select over timers would hand the outcome to
+		// Go's randomised select (two timers ready at once) and break replay
+		if !s.faultFired && s.evt >= s.faultAt && kind == 'b' {
+			s.faultFired = true
+			s.Stats["fired_"+FaultStall.String()]++
+			return FaultStall
+		}
+		return FaultNone
+	}
 	if s.faultKind != FaultNone && !s.faultFired && s.evt == s.faultAt {
 		s.faultFired = true
 		k := s.faultKind
